@@ -502,11 +502,18 @@ class MatrixSum(Expression):
     def jacobian_row(self, variables: list[Variable]) -> list[Expression] | None:
         """Return Jacobian row in O(n).
 
-        For MatrixSum(X), gradient w.r.t. X[i,j] is 1 for all elements in X,
-        0 for all other variables.
+        For MatrixSum(X) over a MatrixVariable, the gradient w.r.t. a variable is the
+        number of entries of X that hold it (2 for the off-diagonal variables of a
+        symmetric matrix), 0 for all other variables. For a MatrixExpression the
+        elements are arbitrary expressions: defer to the general gradient path.
         """
-        my_vars = self.matrix.get_variables()
-        return [Constant(1.0) if var in my_vars else Constant(0.0) for var in variables]
+        if not isinstance(self.matrix, MatrixVariable):
+            return None
+        counts: dict[Variable, int] = {}
+        for row in self.matrix._variables:
+            for var in row:
+                counts[var] = counts.get(var, 0) + 1
+        return [Constant(float(counts.get(var, 0))) for var in variables]
 
     def __repr__(self) -> str:
         if isinstance(self.matrix, MatrixVariable):
